@@ -109,10 +109,8 @@ class IPv4FlowSpec(NLRI):
         prefix_len = ord(data[0:1])
         octet_len = int(math.ceil(prefix_len / 8))
         tmp = data[1:octet_len + 1]
-        if isinstance(tmp[0], int):
-            prefix_data = [i for i in tmp]
-        else:
-            prefix_data = [ord(i) for i in tmp]
+        # no octet at all follows a prefix length of 0
+        prefix_data = [i for i in bytearray(tmp)]
         prefix_data = prefix_data + list(str(0)) * 4
         prefix = "%s.%s.%s.%s" % (tuple(prefix_data[0:4])) + '/' + str(prefix_len)
         return prefix, octet_len + 1
@@ -132,7 +130,7 @@ class IPv4FlowSpec(NLRI):
         elif 0 < masklen <= 8:
             ip_hex = ip_hex[0:1]
         elif masklen == 0:
-            ip_hex = ''
+            ip_hex = b''
         return struct.pack('!B', masklen) + ip_hex
 
     @classmethod
